@@ -13,7 +13,7 @@ package flood
 //   forge:<v>       a command with a fresh id that must be rejected is delivered:
 //                   badsig (wrong signature), unsigned (zero signature), stale (validly
 //                   signed but stamped 20 minutes ago)
-//   cleanup#k       the periodic cache maintenance runs (the real f.cleanup()); k selects
+//   cleanup#<ids>   the periodic cache maintenance runs (the real f.cleanup()); <ids> names
 //                   which of the eviction outcomes the runtime can produce is taken
 //   tick:<m>        m minutes pass
 // Oracle: HandleSleepCommand / HandleWakeCommand return true (the agent then calls
@@ -31,18 +31,26 @@ package flood
 // boundary from below and is always strictly above it at k = 5 (an execution that took
 // longer than 20 s of real time is reported as a harness error, not a verdict).
 //
-// Map order. The size-based eviction deletes "excess" entries in Go map iteration order.
-// The harness does not predict which: for a cleanup it snapshots the cache, runs the
-// real f.cleanup() 384 times from the restored snapshot and collects the distinct
-// outcomes (sets of surviving keys); the sorted outcomes are the choices cleanup#0..k.
-// The cache holds at most 7 entries (one 8-slot map group: iteration starts at a
-// uniformly random slot), so every entry is the first victim with probability >= 1/8 per
-// try and an outcome is missed with probability < 1e-22; the verdict and all counts are
-// the same on every run. An implementation that never evicts a still-valid entry simply
-// has no such outcome.
+// Map order. The size-based eviction deletes "excess" entries in Go map iteration order,
+// which the runtime randomises. The harness neither predicts nor samples the victim: in
+// every state it snapshots the cache and enumerates the outcomes of the real f.cleanup()
+// (sets of surviving keys) by re-running it from the restored snapshot on controlled slot
+// layouts: the cache is rebuilt as a fresh single-group map (<= 7 entries, 8 slots, range
+// starts at a uniformly random slot and wraps), first in canonical order (16 runs, to learn
+// how many entries a cleanup removes), then, for every observed removal count r and every
+// r-subset S of the keys, with S inserted first (96 runs each): an eviction that takes the
+// first entries in iteration order takes exactly S whenever iteration starts at slot 0 or
+// in the empty tail, i.e. with probability >= 2/8 per run, so a producible outcome is
+// missed with probability < 1e-11 per layout. The sorted outcomes label the events
+// cleanup#<survivors>; replaying such an event re-runs the real cleanup on the favourable
+// layout until it leaves exactly those survivors. Verdict and counts are the same on
+// every run (checked); an implementation that never evicts a still-valid entry simply has
+// no outcome in which it is gone. A violation therefore means: SOME iteration order the
+// runtime produces lets the replay through.
 //
 // State canon (complete for the futures of the alphabet): per cache entry its label
-// (genuine n / forged), age in minutes capped at 6 (> TTL behaves alike), SeenFrom; per
+// (genuine n / forged), age in minutes capped at 6 (> TTL behaves alike), SeenFrom, and
+// the age of any other time stamp a (repaired) implementation keeps in the entry; per
 // genuine command kind, minutes since its timestamp capped at 6 (> window: never valid
 // again), number of accepts, and how its entry was lost; number of forged commands.
 
@@ -373,10 +381,22 @@ func (w *c29World) canon() string {
 				from = strconv.Itoa(i + 1)
 			}
 		}
+		// any further time stamp the implementation keeps in the entry (none today)
+		extra := ""
+		ev := reflect.ValueOf(e)
+		for i := 0; i < ev.NumField(); i++ {
+			if t, ok := ev.Field(i).Interface().(time.Time); ok && ev.Type().Field(i).Name != "SeenAt" && !t.IsZero() {
+				m := c29Minutes(w.base.Sub(t)+24*time.Hour) - 24*60 // rounds correctly for negative ages
+				if m > 12 {
+					m = 12
+				}
+				extra += fmt.Sprintf(":%s=%d", ev.Type().Field(i).Name, m)
+			}
+		}
 		if k.CommandID >= 200 {
-			forged = append(forged, fmt.Sprintf("F:%d:%s", age, from))
+			forged = append(forged, fmt.Sprintf("F:%d:%s%s", age, from, extra))
 		} else {
-			parts = append(parts, fmt.Sprintf("E%d:%d:%s", k.CommandID-100, age, from))
+			parts = append(parts, fmt.Sprintf("E%d:%d:%s%s", k.CommandID-100, age, from, extra))
 		}
 	}
 	sort.Strings(parts)
@@ -448,9 +468,9 @@ func TestVerif_C29(t *testing.T) {
 	r := vmc.New("C29", "model_checking")
 	r.Rule = "BFS over histories of {first delivery of a genuine signed sleep/wake command stamped now+d, replay of it by either peer, forged/unsigned/stale commands with fresh ids, the real cache cleanup with every eviction outcome the runtime produces, clock ticks} on one real Flooder; a history is non-trivial when a genuine command was accepted and a later event touched the cache (replay, forged command, cleanup, tick); distinct = distinct (last event kind, handler verdict, canonical state)"
 	r.Assume("Ed25519 from the standard library is trusted; forging a valid signature is outside the adversary alphabet")
-	r.Assume("MaxSeenCacheSize is scaled down from 10000 to 2: the eviction code depends only on len(cache) - MaxSeenCacheSize")
+	r.Assume("MaxSeenCacheSize is scaled down from 10000 to 2 (config flood) and 1 (config crowd): the eviction code depends only on len(cache) - MaxSeenCacheSize")
 	r.Assume("time is translated, not simulated: stored SeenAt stamps are moved into the past and command timestamps are computed relative to the real now (all offsets whole minutes, TTL and window 5 minutes)")
-	r.Assume("eviction outcomes are those the Go runtime's map iteration produced in 384 runs of the real cleanup from the same cache contents (cache <= 7 entries; an outcome is missed with probability < 1e-22)")
+	r.Assume("eviction outcomes are enumerated by re-running the real cleanup on controlled slot layouts of a <= 7 entry single-group map (16 + 96 runs per r-subset layout); an outcome the runtime can produce is missed with probability < 1e-11 per layout")
 
 	// two configurations: "flood" lets rejected commands compete with one or two genuine
 	// ones for a cache of 2; "crowd" has more genuine commands than the cache holds, so
@@ -549,6 +569,12 @@ func TestVerif_C29(t *testing.T) {
 					target := strings.TrimPrefix(p[0], "cleanup#")
 					before := w.snapshot()
 					if !w.cleanupTo(r, target) {
+						if r.Replaying {
+							// a replayed counterexample whose eviction outcome the tree under test no
+							// longer produces (e.g. a repaired cleanup) is simply not a history any more
+							r.Info["replay_infeasible"] = fmt.Sprintf("event %d (%s): the real cleanup never leaves the survivors %q on this tree", i, ev, target)
+							return "infeasible", nil
+						}
 						r.HarnessError("C29: history %v: the real cleanup never left the survivors %q again (map-order enumeration not reproducible)", hist, target)
 						return "error", nil
 					}
@@ -636,7 +662,9 @@ func TestVerif_C29(t *testing.T) {
 			if b.name == rep.Config {
 				step := mkStep(b)
 				for i := 1; i <= len(rep.History); i++ {
-					step(rep.History[:i])
+					if key, _ := step(rep.History[:i]); key == "infeasible" {
+						break
+					}
 				}
 			}
 		}
